@@ -29,7 +29,8 @@ RULE = ("translator sample goals: each generated real function evaluated by the 
         "2^-50..2^50 (mantissas from VERIF_SEED) and compared inside Coq by interval arithmetic, and at the boundary "
         "argument 0 exactly (all variants and argument kinds; exclusions by name in definedness_obligations); every array "
         "variant on arguments of shape (), (1,), (5,), (2,3), (3,1,2), empty, strided / transposed / Fortran views, float32 and "
-        "int64 (shape, entrywise agreement with the scalar variant, no aliasing); index functions "
+        "int64 (shape, entrywise agreement with the scalar variant, no aliasing); sequences of volume / radius assignments "
+        "on one droplet (both classes, four argument kinds, four start radii) against from_volume and the generic conversions; index functions "
         "compared by vm_compute on all k below the bound; variants (scalar/array/compiled/nd) compared numerically; "
         "distinct = distinct (function, input) pairs, all non-trivial (non-zero argument)")
 
@@ -291,6 +292,87 @@ def shape_failures(rng: random.Random):
     return fails
 
 
+def sequence_failures(rng: random.Random):
+    """`setting a droplet's volume and reading it back returns the value set`, judged as a SEQUENCE of assignments on ONE
+    object (the result must not depend on the droplet's previous state): SphericalDroplet and DiffuseDroplet, dimensions
+    1-3, starting from radius 0 / tiny / ordinary / huge, volumes 2, 7.5, 0, 5, 1e-30, 1e30, 0, 3 (and seeded ones) given
+    as Python float, np.float64, np.float32 and int, interleaved with radius assignments.  After every step volume,
+    radius, surface_area, bbox and (for radius > 0) the curvature are read back and compared with a freshly constructed
+    droplet of that volume (`from_volume`, same argument: 1e-14) and with the generic conversions of the value set
+    (1e-12 for binary64 / integer arguments; 1e-5 for float32 arguments, whose radius is computed in single precision)."""
+    import warnings
+    from droplets.tools import spherical as sp
+    from droplets.droplets import DiffuseDroplet, SphericalDroplet
+    fails = []
+    base = [2.0, 7.5, 0.0, 5.0, 1e-30, 1e30, 0.0, 3.0]
+    extra = [math.ldexp(1 + rng.randrange(0, 64) / 64.0, rng.randrange(-40, 40)) for _ in range(3)]
+    kinds = {"float": float, "np.float64": np.float64, "np.float32": np.float32,
+             "int": lambda v: int(v) if float(v).is_integer() else int(round(v))}
+
+    def close(a, b, rel):
+        a, b = float(a), float(b)
+        return math.isfinite(a) and math.isfinite(b) and abs(a - b) <= rel * max(abs(a), abs(b))
+
+    def observe(dr):
+        with warnings.catch_warnings():
+            warnings.simplefilter("ignore")
+            o = {"radius": float(dr.radius), "volume": float(dr.volume), "surface_area": float(dr.surface_area),
+                 "bbox_lo": [float(t) for t in dr.bbox.pos], "bbox_size": [float(t) for t in dr.bbox.size]}
+            if o["radius"] > 0:
+                o["curvature"] = float(dr.interface_curvature)
+        return o
+
+    for cls in (SphericalDroplet, DiffuseDroplet):
+        for d in (1, 2, 3):
+            pos = np.arange(d) + 0.5
+            for r0 in (0.0, 1e-12, 1.5, 1e12):
+                for kname, conv in kinds.items():
+                    dr = cls(pos, r0)
+                    history = [("radius", r0)]
+                    steps = [("volume", v) for v in base + extra]
+                    steps[3:3] = [("radius", 0.0)]        # interleaved radius assignments: the state in between
+                    steps[7:7] = [("radius", 2.5)]
+                    for what, val in steps:
+                        rec = {"what": f"{cls.__name__}: sequence of volume / radius assignments on one droplet",
+                               "class": cls.__name__, "dim": d, "start_radius": r0, "argument_kind": kname,
+                               "history": [list(h) for h in history], "step": [what, val]}
+                        if what == "radius":
+                            dr.radius = val
+                            history.append((what, val))
+                            continue
+                        v = conv(val)
+                        history.append((what, float(v)))
+                        try:
+                            with warnings.catch_warnings():
+                                warnings.simplefilter("ignore")
+                                dr.volume = v
+                            got = observe(dr)
+                            fresh = observe(cls.from_volume(pos, v))
+                            vf = float(v)
+                            rad = float(sp.radius_from_volume(vf, d))
+                            want = {"volume": vf, "radius": rad, "surface_area": float(sp.surface_from_radius(rad, d))}
+                        except Exception as e:  # noqa
+                            fails.append({**rec, "result": f"raised {type(e).__name__}: {e}"[:200]})
+                            break
+                        rel = 1e-5 if kname == "np.float32" else 1e-12
+                        bad = [k for k in want if not close(got[k], want[k], rel)]
+                        bad += [k for k in fresh if k not in got or
+                                not all(close(a, b, 1e-14) for a, b in zip(np.ravel(got[k]), np.ravel(fresh[k])))]
+                        if rad > 0 and not close(got.get("curvature", math.nan), 1 / rad, rel):
+                            bad.append("curvature")
+                        # bbox = (position - radius, position + radius): each corner is one rounded operation on numbers of
+                        # size |position| + radius, the size is their difference: absolute error <= 4 * 2^-52 * (|p| + r)
+                        ulp = [4 * 2.0 ** -52 * (abs(q) + rad) + rel * rad for q in pos]
+                        if not all(math.isfinite(a) and abs(a - (q - rad)) <= t for a, q, t in zip(got["bbox_lo"], pos, ulp)) or \
+                                not all(math.isfinite(a) and abs(a - 2 * rad) <= 2 * t for a, t in zip(got["bbox_size"], ulp)):
+                            bad.append("bbox")
+                        if bad:
+                            fails.append({**rec, "differs": sorted(set(bad)), "read_back": got,
+                                          "fresh_from_volume": fresh, "generic_conversion": want})
+                            break
+    return fails
+
+
 def oracle(rng: random.Random, n: int):
     """Executable form of the property text over the implementation; returns failing inputs."""
     from droplets.tools import spherical as sp
@@ -309,59 +391,67 @@ def oracle(rng: random.Random, n: int):
         v2r_nd = sp.make_radius_from_volume_nd_compiled()
         r2v_nd = sp.make_volume_from_radius_nd_compiled()
         for x in _inputs(rng, n):
-            v = sp.volume_from_radius(x, d)
-            if not close(sp.radius_from_volume(v, d), x):
-                fails.append({"what": "radius->volume->radius", "dim": d, "radius": x})
-            if not close(sp.volume_from_radius(sp.radius_from_volume(x, d), d), x):
-                fails.append({"what": "volume->radius->volume", "dim": d, "volume": x})
-            if d > 1:
-                if not close(sp.radius_from_surface(sp.surface_from_radius(x, d), d), x):
-                    fails.append({"what": "radius->surface->radius", "dim": d, "radius": x})
-            # surface = dV/dr (closed forms: V is a polynomial of degree d, central difference
-            # with step r/8 has truncation error (1/64)/1 * r^2 term only for d = 3: use Richardson)
-            h1, h2 = x / 8, x / 16
-            D1 = (sp.volume_from_radius(x + h1, d) - sp.volume_from_radius(x - h1, d)) / (2 * h1)
-            D2 = (sp.volume_from_radius(x + h2, d) - sp.volume_from_radius(x - h2, d)) / (2 * h2)
-            deriv = (4 * D2 - D1) / 3
-            if not close(float(sp.surface_from_radius(x, d)), deriv, 1e-9):
-                fails.append({"what": "surface != dV/dr", "dim": d, "radius": x})
-            arr = np.array([x, 2 * x])
-            vals = {
-                "vfr": [float(sp.volume_from_radius(x, d)), float(sp.volume_from_radius(arr, d)[0]), float(r2v_c(x)),
-                        float(r2v_c(arr)[0]), float(r2v_nd(x, d))],
-                "rfv": [float(sp.radius_from_volume(x, d)), float(sp.radius_from_volume(arr, d)[0]), float(v2r_c(x)),
-                        float(v2r_c(arr)[0]), float(v2r_nd(x, d))],
-                "sfr": [float(sp.surface_from_radius(x, d)), float(np.asarray(sp.surface_from_radius(arr, d))[0]),
-                        float(r2s_c(x)), float(np.asarray(r2s_c(arr))[0])],
-            }
-            for k, vs in vals.items():
-                if not all(close(vs[0], w, 1e-14) for w in vs):
-                    fails.append({"what": f"variants of {k} differ", "dim": d, "arg": x, "values": vs})
-            dr = SphericalDroplet(np.arange(d) + 0.5, 1.0)
-            dr.volume = x
-            if not close(dr.volume, x):
-                fails.append({"what": "droplet volume set/get", "dim": d, "volume": x})
-            dr = SphericalDroplet(np.arange(d) + 0.5, x)
-            if not close(dr.volume, sp.volume_from_radius(x, d)) or not close(dr.surface_area, float(sp.surface_from_radius(x, d))):
-                fails.append({"what": "droplet volume/surface formula", "dim": d, "radius": x})
-            bb = dr.bbox
-            if not (np.allclose(bb.pos, dr.position - x, rtol=1e-13) and np.allclose(bb.size, 2 * x, rtol=1e-13)):
-                fails.append({"what": "bbox formula", "dim": d, "radius": x})
-            if not close(dr.interface_curvature, 1 / x):
-                fails.append({"what": "curvature formula", "dim": d, "radius": x})
+            try:
+                v = sp.volume_from_radius(x, d)
+                if not close(sp.radius_from_volume(v, d), x):
+                    fails.append({"what": "radius->volume->radius", "dim": d, "radius": x})
+                if not close(sp.volume_from_radius(sp.radius_from_volume(x, d), d), x):
+                    fails.append({"what": "volume->radius->volume", "dim": d, "volume": x})
+                if d > 1:
+                    if not close(sp.radius_from_surface(sp.surface_from_radius(x, d), d), x):
+                        fails.append({"what": "radius->surface->radius", "dim": d, "radius": x})
+                # surface = dV/dr (closed forms: V is a polynomial of degree d, central difference
+                # with step r/8 has truncation error (1/64)/1 * r^2 term only for d = 3: use Richardson)
+                h1, h2 = x / 8, x / 16
+                D1 = (sp.volume_from_radius(x + h1, d) - sp.volume_from_radius(x - h1, d)) / (2 * h1)
+                D2 = (sp.volume_from_radius(x + h2, d) - sp.volume_from_radius(x - h2, d)) / (2 * h2)
+                deriv = (4 * D2 - D1) / 3
+                if not close(float(sp.surface_from_radius(x, d)), deriv, 1e-9):
+                    fails.append({"what": "surface != dV/dr", "dim": d, "radius": x})
+                arr = np.array([x, 2 * x])
+                vals = {
+                    "vfr": [float(sp.volume_from_radius(x, d)), float(sp.volume_from_radius(arr, d)[0]), float(r2v_c(x)),
+                            float(r2v_c(arr)[0]), float(r2v_nd(x, d))],
+                    "rfv": [float(sp.radius_from_volume(x, d)), float(sp.radius_from_volume(arr, d)[0]), float(v2r_c(x)),
+                            float(v2r_c(arr)[0]), float(v2r_nd(x, d))],
+                    "sfr": [float(sp.surface_from_radius(x, d)), float(np.asarray(sp.surface_from_radius(arr, d))[0]),
+                            float(r2s_c(x)), float(np.asarray(r2s_c(arr))[0])],
+                }
+                for k, vs in vals.items():
+                    if not all(close(vs[0], w, 1e-14) for w in vs):
+                        fails.append({"what": f"variants of {k} differ", "dim": d, "arg": x, "values": vs})
+                dr = SphericalDroplet(np.arange(d) + 0.5, 1.0)
+                dr.volume = x
+                if not close(dr.volume, x):
+                    fails.append({"what": "droplet volume set/get", "dim": d, "volume": x})
+                dr = SphericalDroplet(np.arange(d) + 0.5, x)
+                if not close(dr.volume, sp.volume_from_radius(x, d)) or not close(dr.surface_area, float(sp.surface_from_radius(x, d))):
+                    fails.append({"what": "droplet volume/surface formula", "dim": d, "radius": x})
+                bb = dr.bbox
+                if not (np.allclose(bb.pos, dr.position - x, rtol=1e-13) and np.allclose(bb.size, 2 * x, rtol=1e-13)):
+                    fails.append({"what": "bbox formula", "dim": d, "radius": x})
+                if not close(dr.interface_curvature, 1 / x):
+                    fails.append({"what": "curvature formula", "dim": d, "radius": x})
+            except Exception as e:  # noqa  (a conversion that raises on a positive argument is a failure at that input)
+                fails.append({"what": f"a conversion raised {type(e).__name__} on a positive argument", "dim": d, "arg": x,
+                              "result": str(e)[:160]})
     # the boundary of the quantifier and the shapes of the arguments first (they are the sharpest inputs)
-    fails = boundary_failures() + shape_failures(random.Random(rng.random())) + fails
-    for l in range(0, 40):
-        for m in range(-l, l + 1):
-            k = sp.spherical_index_k(l, m)
-            if tuple(int(t) for t in sp.spherical_index_lm(k)) != (l, m):
-                fails.append({"what": "index_lm(index_k(l,m)) != (l,m)", "l": l, "m": m})
-    for k in range(0, 3000):
-        l, m = sp.spherical_index_lm(k)
-        if sp.spherical_index_k(int(l), int(m)) != k:
-            fails.append({"what": "index_k(index_lm(k)) != k", "k": k})
-        if bool(sp.spherical_index_count_optimal(k)) != (math.isqrt(k) ** 2 == k):
-            fails.append({"what": "count_optimal != is_square", "k": k})
+    fails = (boundary_failures() + shape_failures(random.Random(rng.random()))
+             + sequence_failures(random.Random(rng.random())) + fails)
+    try:
+        for l in range(0, 40):
+            for m in range(-l, l + 1):
+                k = sp.spherical_index_k(l, m)
+                if tuple(int(t) for t in sp.spherical_index_lm(k)) != (l, m):
+                    fails.append({"what": "index_lm(index_k(l,m)) != (l,m)", "l": l, "m": m})
+        for k in range(0, 3000):
+            l, m = sp.spherical_index_lm(k)
+            if sp.spherical_index_k(int(l), int(m)) != k:
+                fails.append({"what": "index_k(index_lm(k)) != k", "k": k})
+            if bool(sp.spherical_index_count_optimal(k)) != (math.isqrt(k) ** 2 == k):
+                fails.append({"what": "count_optimal != is_square", "k": k})
+    except Exception as e:  # noqa
+        fails.append({"what": f"an index function raised {type(e).__name__} inside its documented range", "result": str(e)[:160]})
     return fails
 
 
